@@ -299,6 +299,12 @@ class MechCorr:
             if acc or self.pre_state is None or impl_state(live.m, Interner()) != self.pre_state:
                 return UNM
             return None
+        if kind in ("batch_cells_pandas", "batch_space_pandas") and op[-1] == "csv":
+            labels = op[2] if kind == "batch_cells_pandas" else op[3]
+            if len(set(labels)) != len(labels):
+                # a csv file with one column label twice: pandas renames the second (`n2.1`) when it reads the file -
+                # the names modelx is offered are not the ones in the operation; not compared (state only if refused)
+                return UNM if acc else ["obs"]
         if kind == "batch_cells_pandas":
             return ["cellsbatch", op[1], es(op[1], batch_api.resolved_names(op[2], op[3]))]
         if kind == "batch_space_pandas":
